@@ -433,6 +433,62 @@ static std::string run_grid(int type, bool ordered, vf::Ctx& ctx)
     return "";
 }
 
+// ---------------------------------------------------------------- in-place modification
+
+// the hash is a function of the *current* member tuple: hash, modify members in place, hash again
+static void mutate(S1& t, const Val& v)
+{
+    t.a = static_cast<int>(v.i);
+}
+static void mutate(S2& t, const Val& v)
+{
+    t.a = static_cast<int>(v.i);
+    t.s = v.s;
+}
+static void mutate(S3& t, const Val& v)
+{
+    std::get<0>(t.as_tuple()) = static_cast<std::int8_t>(v.i); // through the tuple of references
+    t.s = v.s;
+    t.d = DTAB[v.d % NDTAB];
+}
+static void mutate(S4& t, const Val& v)
+{
+    std::get<0>(t.m) = std::make_pair(static_cast<int>(v.i), v.s);
+    std::get<1>(t.m) = make_var(v);
+}
+
+template <class T>
+static std::string run_mutation(const Case& c, vf::Ctx& ctx)
+{
+    T obj = make<T>(c.x);
+    std::size_t h0 = nitro::lang::hash(obj);
+    nitro::lang::unordered_set<T> set;
+    set.insert(obj); // hashes it as well
+    mutate(obj, c.y);
+    T fresh = make<T>(c.y);
+    ctx.tag("mutation:hash-modify-hash");
+    if (!(obj == fresh))
+        return std::string("harness: in-place modification did not produce the intended value (") +
+               type_name(c.type) + ")";
+    if (nitro::lang::hash(obj) != nitro::lang::hash(fresh))
+        return std::string("a value that was hashed, then modified in place, hashes differently from an "
+                           "equal freshly built value: ") +
+               type_name(c.type) + " " + val_str(c.x) + " -> " + val_str(c.y);
+    (void)h0;
+    // swap two members' worth: modify back and forth
+    mutate(obj, c.x);
+    if (nitro::lang::hash(obj) != nitro::lang::hash(make<T>(c.x)))
+        return std::string("hash does not follow the member tuple after modifying it back: ") +
+               type_name(c.type);
+    // a copy taken after hashing and then modified must follow its own members, too
+    T copy = obj;
+    (void)nitro::lang::hash(copy);
+    mutate(copy, c.z);
+    if (nitro::lang::hash(copy) != nitro::lang::hash(make<T>(c.z)))
+        return std::string("hash of a modified copy does not follow its members: ") + type_name(c.type);
+    return "";
+}
+
 // ---------------------------------------------------------------- random cases
 
 template <class T>
@@ -629,21 +685,29 @@ std::string check(const Case& c, vf::Ctx& ctx)
         m = run_random<S1>(c, true, ctx);
         if (m.empty())
             m = run_container<S1>(c, ctx);
+        if (m.empty())
+            m = run_mutation<S1>(c, ctx);
         break;
     case T_S2:
         m = run_random<S2>(c, true, ctx);
         if (m.empty())
             m = run_container<S2>(c, ctx);
+        if (m.empty())
+            m = run_mutation<S2>(c, ctx);
         break;
     case T_S3:
         m = run_random<S3>(c, true, ctx);
         if (m.empty())
             m = run_container<S3>(c, ctx);
+        if (m.empty())
+            m = run_mutation<S3>(c, ctx);
         break;
     case T_S4:
         m = run_random<S4>(c, true, ctx);
         if (m.empty())
             m = run_container<S4>(c, ctx);
+        if (m.empty())
+            m = run_mutation<S4>(c, ctx);
         break;
     case T_TUPLE:
         m = run_random<Tup>(c, false, ctx);
